@@ -15,6 +15,10 @@ var Corpus = [][]string{
 	// the stub before it and the goroutine copying from the socket
 	{"upstream u1 1", "create p1 u1 1", "tadd p1 down t2 limit_data 20 0 0 1", "connect p1 c1", "send c1 down 200000"},
 	{"upstream u1 1", "create p1 u1 1", "tadd p1 up t1 timeout 20 0 0 1", "connect p1 c1", "send c1 up 200000", "send c1 up 100"},
+	// C15 (fixed): a failed write (here: everything is torn down while a write to a peer that
+	// does not read is blocked) must not strand the last stub and what is before it
+	{"upstream u1 1", "create p1 u1 1", "connect p1 c1", "pause c1 server"},
+	{"upstream u1 1", "create p1 u1 1", "tadd p1 down t1 latency 400 0 0 1", "connect p1 c1", "sendnw c1 down 100", "sendnw c1 down 100", "abort c1 client"},
 }
 
 type tgen struct {
@@ -34,6 +38,103 @@ var pool = []tgen{
 	{"reset_peer", func(r *rng.R) (int64, int64, int64) { return int64(r.Pick(0, 10, 30)), 0, 0 }},
 }
 
+// InFlight: histories with data in flight when a connection or the proxy goes away (C15's
+// matrix: who closes first x FIN/RST x what is in flight), peers that stop reading, and
+// clients accepted while a stopping request runs (C03). Timers are long (400 ms latency) so
+// that "at this instant" is the same instant for the model and the real sockets.
+func InFlight(r *rng.R) []string {
+	ops := []string{"upstream u1 1", "create p1 u1 1"}
+	dirs := []string{"up", "down"}
+	who := []string{"client", "server"}
+	if r.Chance(2, 3) {
+		ops = append(ops, fmt.Sprintf("tadd p1 %s t1 latency 400 0 0 1", dirs[r.Intn(2)]))
+	}
+	if r.Chance(1, 4) {
+		ops = append(ops, fmt.Sprintf("tadd p1 %s t2 %s", dirs[r.Intn(2)], r.PickS("noop 0 0 0 1", "latency 400 0 0 1", "slow_close 30 0 0 1", "limit_data 100000 0 0 1")))
+	}
+	nconn := 1 + r.Intn(2)
+	var conns []string
+	for i := 1; i <= nconn; i++ {
+		c := fmt.Sprintf("c%d", i)
+		conns = append(conns, c)
+		ops = append(ops, "connect p1 "+c)
+	}
+	n := 2 + r.Intn(7)
+	for i := 0; i < n; i++ {
+		c := conns[r.Intn(len(conns))]
+		switch x := r.Intn(20); {
+		case x < 7:
+			ops = append(ops, fmt.Sprintf("sendnw %s %s %d", c, dirs[r.Intn(2)], r.Pick(1, 5, 100, 1000)))
+		case x < 9:
+			ops = append(ops, fmt.Sprintf("send %s %s %d", c, dirs[r.Intn(2)], r.Pick(1, 100, 1000)))
+		case x < 12:
+			ops = append(ops, fmt.Sprintf("abort %s %s", c, who[r.Intn(2)]))
+		case x < 14:
+			ops = append(ops, fmt.Sprintf("close %s %s", c, who[r.Intn(2)]))
+		case x < 16:
+			ops = append(ops, fmt.Sprintf("pause %s %s", c, who[r.Intn(2)]))
+		case x == 16:
+			ops = append(ops, fmt.Sprintf("resume %s %s", c, who[r.Intn(2)]))
+		case x == 17:
+			ops = append(ops, r.PickS("disable p1", "delete p1", "setupstream p1 u1", "enable p1"))
+		case x == 18:
+			ops = append(ops, r.PickS("tdel p1 t1", "treset p1", "tadd p1 up t3 noop 0 0 0 1"))
+		default:
+			nconn++
+			nc := fmt.Sprintf("c%d", nconn)
+			ops = append(ops, fmt.Sprintf("stallstop p1 %s %s", nc, r.PickS("disable", "delete")))
+			conns = append(conns, nc)
+		}
+	}
+	if r.Chance(1, 2) {
+		ops = append(ops, r.PickS("disable p1", "delete p1"))
+	}
+	return ops
+}
+
+// StallLeak: a peer stops reading with data in flight towards it, the other direction ends
+// first (half-close), then the proxy is stopped while the peers stay alive (C15: "whichever
+// peer ended it ... and after a proxy has been disabled or deleted").
+func StallLeak(r *rng.R) []string {
+	ops := []string{"upstream u1 1", "create p1 u1 1"}
+	if r.Chance(1, 3) {
+		ops = append(ops, fmt.Sprintf("tadd p1 %s t1 %s", r.PickS("up", "down"), r.PickS("noop 0 0 0 1", "latency 20 0 0 1", "slow_close 10 0 0 1")))
+	}
+	ops = append(ops, "connect p1 c1")
+	if r.Chance(1, 2) {
+		ops = append(ops, "connect p1 c2", fmt.Sprintf("send c2 %s %d", r.PickS("up", "down"), r.Pick(1, 100, 5000)))
+	}
+	who := r.PickS("client", "server")
+	ops = append(ops, "pause c1 "+who)
+	switch r.Intn(4) {
+	case 0, 1:
+		ops = append(ops, "close c1 "+who) // the stalled peer half-closes: the other direction ends
+	case 2:
+		other := "server"
+		if who == "server" {
+			other = "client"
+		}
+		ops = append(ops, "close c1 "+other)
+	}
+	ops = append(ops, r.PickS("disable p1", "delete p1", "setupstream p1 u1", "disable p1"))
+	return ops
+}
+
+// Relabel: connections before and after a proxy is re-addressed (C20's labels).
+func Relabel(r *rng.R) []string {
+	ops := []string{"upstream u1 1", "upstream u2 1", "create p1 u1 1", "connect p1 c1",
+		fmt.Sprintf("send c1 up %d", r.Pick(10, 1000)), fmt.Sprintf("send c1 down %d", r.Pick(3, 300))}
+	if r.Chance(1, 2) {
+		ops = append(ops, "close c1 client")
+	}
+	ops = append(ops, "setupstream p1 u2", "connect p1 c2", fmt.Sprintf("send c2 up %d", r.Pick(20, 2000)), fmt.Sprintf("send c2 down %d", r.Pick(7, 700)),
+		"close c2 "+r.PickS("client", "server"))
+	if r.Chance(1, 2) {
+		ops = append(ops, "setupstream p1 u1", "connect p1 c3", "send c3 up 5", "close c3 server")
+	}
+	return ops
+}
+
 func Episode(r *rng.R) []string {
 	ops := []string{"upstream u1 1"}
 	if r.Chance(1, 2) {
@@ -44,8 +145,12 @@ func Episode(r *rng.R) []string {
 	tnames := []string{"t1", "t2", "t3"}
 	nconn := 0
 	var conns []string
+	slices := false // a slicer with tiny slices is in play: keep payloads small (real time)
 	mk := func() string {
 		g := pool[r.Intn(len(pool))]
+		if g.ty == "slicer" {
+			slices = true
+		}
 		a1, a2, a3 := g.gen(r)
 		tox := "1"
 		if r.Chance(1, 8) {
@@ -66,7 +171,11 @@ func Episode(r *rng.R) []string {
 			conns = append(conns, c)
 			ops = append(ops, fmt.Sprintf("connect %s %s", p, c))
 		case x < 14 && len(conns) > 0:
-			ops = append(ops, fmt.Sprintf("send %s %s %d", conns[r.Intn(len(conns))], []string{"up", "down"}[r.Intn(2)], r.Pick(1, 2, 5, 21, 100, 1000, 1000, 200000)))
+			n := r.Pick(1, 2, 5, 21, 100, 1000, 1000, 200000)
+			if slices && n > 1000 {
+				n = 5000
+			}
+			ops = append(ops, fmt.Sprintf("send %s %s %d", conns[r.Intn(len(conns))], []string{"up", "down"}[r.Intn(2)], n))
 		case x < 17 && len(conns) > 0:
 			ops = append(ops, fmt.Sprintf("close %s %s", conns[r.Intn(len(conns))], []string{"client", "server"}[r.Intn(2)]))
 		case x < 21:
@@ -115,18 +224,57 @@ func Sweep(e *Engine, tier string, seed uint64, res *report.Result) {
 			return
 		}
 	}
+	searching := false
 	r := rng.New(seed)
 	n := 150
 	if tier == "thorough" {
 		n = 3000
 	}
 	for i := 0; i < n; i++ {
-		ops := Episode(r)
+		var ops []string
+		switch {
+		case i%5 == 3:
+			ops = InFlight(r)
+		case i%25 == 4:
+			ops = Relabel(r)
+		case i%10 == 7:
+			ops = StallLeak(r)
+		default:
+			ops = Episode(r)
+		}
 		if f := e.Run(ops, res); f != nil {
+			if searching {
+				// after a disagreement: looking for a model-free failing input only
+				if f.Kind == "oracle" {
+					res.Failures = append(res.Failures, *run.Minimize(e, ops, f))
+					break
+				}
+				continue
+			}
 			report1(ops, f)
-			if f.Kind == "disagreement" || len(res.Failures) >= 3 {
+			if len(res.Failures) >= 3 {
 				return
+			}
+			if f.Kind == "disagreement" {
+				hasOracle := false
+				for _, x := range res.Failures {
+					if x.Kind == "oracle" {
+						hasOracle = true
+					}
+				}
+				if hasOracle {
+					return
+				}
+				// the model and the implementation differ and the failing history itself violates
+				// no oracle: search on (bounded) with the model-free oracles alone
+				searching = true
+				e.OracleOnly = true
+				if n > i+120 {
+					n = i + 120
+				}
+				res.Notes = append(res.Notes, "search after disagreement: up to 120 further histories with the model-free oracles only")
 			}
 		}
 	}
+	e.OracleOnly = false
 }
